@@ -733,3 +733,226 @@ Proof.
 Qed.
 
 End Opt2.
+
+(* ---------------- the whole PES packet ---------------- *)
+
+(* the six fixed bytes *)
+Definition head_items (sid L : Z) : list witem := [WBits 24 1; wu8 sid; wu16 L].
+
+Lemma head_aligned sid L : aligned (head_items sid L) 6.
+Proof. split; [reflexivity | items_ok]. Qed.
+
+Lemma head_bytes sid L : 0 <= sid < 256 -> 0 <= L < 65536 ->
+  exists B, bytes_of_items (head_items sid L) = [0; 0; 1; sid] ++ B /\ length B = 2%nat /\ bitsf B 0 16 = L.
+Proof.
+  intros Hs HL. unfold head_items.
+  change [WBits 24 1; wu8 sid; wu16 L] with ([WBits 24 1] ++ [wu8 sid] ++ [wu16 L]).
+  assert (A1 : aligned [WBits 24 1] 3) by (split; [reflexivity | items_ok]).
+  assert (A3 : aligned [wu16 L] 2) by (split; [reflexivity | items_ok]).
+  rewrite (bytes_of_items_app _ _ 3 A1) by items_ok.
+  rewrite (bytes_of_items_app _ _ 1 (wu8_aligned sid)) by items_ok.
+  rewrite wu8_bytes, Z.mod_small by lia.
+  destruct (aligned_bytes _ _ A3) as [Hlen Hbits].
+  exists (bytes_of_items [wu16 L]). split; [|split].
+  - replace (bytes_of_items [WBits 24 1]) with [0; 0; 1] by (vm_compute; reflexivity). reflexivity.
+  - exact Hlen.
+  - unfold bitsf. rewrite Hbits. unfold items_bits, wu16. cbn [flat_map item_bits]. apply field_here.
+    change (2 ^ Z.of_nat 16) with 65536. exact HL.
+Qed.
+
+Lemma located_self_prefix a rest : located (a ++ rest) 0 a.
+Proof. exists [], rest. split; reflexivity. Qed.
+
+Lemma slice_tail a b : slice (a ++ b) (Z.of_nat (length a)) (Z.of_nat (length (a ++ b))) = b.
+Proof.
+  unfold slice. rewrite Nat2Z.id, skipn_app, skipn_all, Nat.sub_diag. cbn [skipn app].
+  apply firstn_all2. rewrite app_length. lia.
+Qed.
+
+(* the generated predicates against the literal stream ids of the specification *)
+Lemma has_opt_lib sid : hasPESOptionalHeader sid = lib_has_optional_header sid.
+Proof.
+  unfold hasPESOptionalHeader, lib_has_optional_header, C_StreamIDPaddingStream, C_StreamIDPrivateStream2.
+  destruct (sid =? 190), (sid =? 191); reflexivity.
+Qed.
+
+Lemma packet_length_ref h n : wf_header h ->
+  pes_packet_length h n = ref_packet_length (PESHeader_StreamID h) (ref_opt_len h) n.
+Proof.
+  intros [Hs Ho]. rewrite length_rule. unfold ref_packet_length, opt_len_of, ref_opt_len, lib_has_optional_header in *.
+  assert (E : (if orb (PESHeader_StreamID h =? 190) (PESHeader_StreamID h =? 191) then 0
+               else calcPESOptionalHeaderLength (PESHeader_OptionalHeader h)) =
+              (if negb (orb (PESHeader_StreamID h =? 190) (PESHeader_StreamID h =? 191))
+               then match PESHeader_OptionalHeader h with Some oh => 3 + ref_header_data_length oh | None => 0 end
+               else 0)).
+  { destruct (orb _ _); cbn [negb] in *; [reflexivity|].
+    destruct (Ho eq_refl) as (oh & -> & W). unfold calcPESOptionalHeaderLength. cbn [odflt].
+    rewrite (calc_len_eq oh W). pose proof (ref_len_range oh W). apply Z.mod_small. lia. }
+  rewrite E. set (o := if negb _ then _ else 0).
+  replace (n + o) with (o + n) by lia. reflexivity.
+Qed.
+
+Theorem parse_write_header h payload : wf_header h -> bytes_ok payload ->
+  exists its n, enc_pes_header h (Z.of_nat (length payload)) = Ok (its, n) /\
+    n = Z.of_nat (length (bytes_of_items its)) /\
+    parse_pes_data_bytes (bytes_of_items its ++ payload) =
+      Ok {| PESData_Data := payload;
+            PESData_Header := Some (observed_header h (Z.of_nat (length payload))) |}.
+Proof.
+  intros Wh Hp. pose proof (packet_length_ref h (Z.of_nat (length payload)) Wh) as HL.
+  destruct Wh as [Hs Ho].
+  remember (Z.of_nat (length payload)) as n eqn:En. remember (PESHeader_StreamID h) as sid eqn:Esid.
+  remember (pes_packet_length h n) as L eqn:EL.
+  assert (HLr : 0 <= L < 65536).
+  { rewrite HL. unfold ref_packet_length, ref_opt_len. rewrite <- Esid.
+    destruct (orb _ _); [lia|].
+    destruct (lib_has_optional_header sid) eqn:El.
+    - destruct (Ho eq_refl) as (oh & -> & W). pose proof (ref_len_range oh W).
+      destruct (_ >? _) eqn:E; lia.
+    - destruct (_ >? _) eqn:E; lia. }
+  destruct (head_bytes sid L Hs HLr) as (B & EB & HB2 & HBf).
+  unfold enc_pes_header. rewrite <- Esid, <- EL. fold (head_items sid L). rewrite has_opt_lib.
+  destruct (lib_has_optional_header sid) eqn:El.
+  - (* with optional header *)
+    destruct (Ho eq_refl) as (oh & Eo & W). rewrite Eo. rewrite (enc_opt_ok oh W). cbn [res_bind].
+    pose proof (opt_aligned oh W) as Ao. pose proof (data_len_eq oh) as Hol. pose proof (ref_len_range oh W) as Rr.
+    eexists _, _. split; [reflexivity|].
+    rewrite (bytes_of_items_app _ _ 6 (head_aligned sid L)) by apply Ao.
+    destruct (aligned_bytes _ _ Ao) as [Hlo _]. destruct (aligned_bytes _ _ (head_aligned sid L)) as [Hlh _].
+    split.
+    { rewrite app_length, Hlh, Hlo. unfold C_pesHeaderLength. lia. }
+    set (hb := bytes_of_items (head_items sid L)) in *. set (ob := bytes_of_items (opt_items oh)) in *.
+    set (bs := (hb ++ ob) ++ payload).
+    assert (Lh : located bs 0 hb) by (unfold bs; rewrite <- app_assoc; apply located_self_prefix).
+    assert (Lo : located bs 6 ob).
+    { exists hb, payload. unfold bs. rewrite <- app_assoc. split; [reflexivity|]. rewrite Hlh. reflexivity. }
+    rewrite EB in Lh. apply located_app in Lh. destruct Lh as [_ Lh].
+    change ([0; 0; 1; sid]) with ([0; 0; 1] ++ [sid]) in EB.
+    assert (Ls : located bs 3 [sid] /\ located bs 4 B).
+    { assert (Lh' : located bs 0 (([0; 0; 1] ++ [sid]) ++ B)).
+      { unfold bs. rewrite <- EB, <- app_assoc. apply located_self_prefix. }
+      apply located_app in Lh'. destruct Lh' as [Lx Ly]. apply located_app in Lx. destruct Lx as [_ Lx]. split; [exact Lx|exact Ly]. }
+    destruct Ls as [Ls Lb].
+    assert (Hlen : Z.of_nat (length bs) = 6 + opt_len oh + n).
+    { unfold bs. rewrite !app_length, Hlh, Hlo. lia. }
+    assert (Hhdr : parse_pes_header (mk_iter bs 3) =
+              Ok (({| PESHeader_OptionalHeader := Some (observed_opt oh); PESHeader_PacketLength := L; PESHeader_StreamID := sid |},
+                   9 + ref_header_data_length oh, if L >? 0 then 6 + L else Z.of_nat (length bs)), mk_iter bs (6 + opt_len oh))).
+    { unfold parse_pes_header.
+      erewrite ibind_ok by (apply (next_byte_located bs 3 sid Ls)).
+      unfold next_bytes_nocopy. erewrite ibind_ok by (apply (next_bytes_located bs 4 B 2); [rewrite HB2; reflexivity | exact Lb]).
+      rewrite HBf. erewrite ibind_ok by reflexivity. erewrite ibind_ok by reflexivity.
+      cbn [ioff ibs]. rewrite has_opt_lib, El. change (3 + 1 + 2) with 6.
+      erewrite ibind_ok by (apply (parse_opt_located oh W bs 6 Lo)). cbv beta iota.
+      unfold iret, ilen; cbn [ibs]. repeat f_equal; lia. }
+    rewrite (parse_data_after_header _ _ _ _ _ Hhdr eq_refl).
+    assert (Hde : (if L >? 0 then 6 + L else Z.of_nat (length bs)) = Z.of_nat (length bs)).
+    { destruct (L >? 0) eqn:E; [|reflexivity]. rewrite HL in *. unfold ref_packet_length in *.
+      destruct (orb _ _); [lia|]. destruct (_ >? 65535); [lia|].
+      unfold ref_opt_len. rewrite <- Esid, El, Eo. lia. }
+    rewrite Hde.
+    destruct (Z.of_nat (length bs) <? 9 + ref_header_data_length oh) eqn:E1; [lia|].
+    rewrite Z.ltb_irrefl. destruct (9 + ref_header_data_length oh <? 0) eqn:E2; [lia|].
+    f_equal. f_equal.
+    + replace (9 + ref_header_data_length oh) with (Z.of_nat (length (hb ++ ob))) by (rewrite app_length, Hlh, Hlo; lia).
+      apply slice_tail.
+    + f_equal. unfold observed_header. rewrite <- Esid, El, Eo. cbn [option_map]. rewrite <- HL. reflexivity.
+  - (* stream ids without optional header *)
+    eexists _, _. split; [reflexivity|].
+    destruct (aligned_bytes _ _ (head_aligned sid L)) as [Hlh _].
+    split. { rewrite Hlh. reflexivity. }
+    set (hb := bytes_of_items (head_items sid L)) in *.
+    set (bs := hb ++ payload).
+    change ([0; 0; 1; sid]) with ([0; 0; 1] ++ [sid]) in EB.
+    assert (Ls : located bs 3 [sid] /\ located bs 4 B).
+    { assert (Lh' : located bs 0 (([0; 0; 1] ++ [sid]) ++ B)).
+      { unfold bs. rewrite <- EB. apply located_self_prefix. }
+      apply located_app in Lh'. destruct Lh' as [Lx Ly]. apply located_app in Lx. destruct Lx as [_ Lx]. split; [exact Lx|exact Ly]. }
+    destruct Ls as [Ls Lb].
+    assert (Hlen : Z.of_nat (length bs) = 6 + n).
+    { unfold bs. rewrite !app_length, Hlh. lia. }
+    assert (Hhdr : parse_pes_header (mk_iter bs 3) =
+              Ok (({| PESHeader_OptionalHeader := None; PESHeader_PacketLength := L; PESHeader_StreamID := sid |},
+                   6, if L >? 0 then 6 + L else Z.of_nat (length bs)), mk_iter bs 6)).
+    { unfold parse_pes_header.
+      erewrite ibind_ok by (apply (next_byte_located bs 3 sid Ls)).
+      unfold next_bytes_nocopy. erewrite ibind_ok by (apply (next_bytes_located bs 4 B 2); [rewrite HB2; reflexivity | exact Lb]).
+      rewrite HBf. erewrite ibind_ok by reflexivity. erewrite ibind_ok by reflexivity.
+      cbn [ioff ibs]. rewrite has_opt_lib, El. change (3 + 1 + 2) with 6.
+      erewrite ibind_ok by reflexivity. reflexivity. }
+    rewrite (parse_data_after_header _ _ _ _ _ Hhdr eq_refl).
+    assert (Hde : (if L >? 0 then 6 + L else Z.of_nat (length bs)) = Z.of_nat (length bs)).
+    { destruct (L >? 0) eqn:E; [|reflexivity]. rewrite HL in *. unfold ref_packet_length in *.
+      destruct (orb _ _); [lia|]. destruct (_ >? 65535); [lia|].
+      unfold ref_opt_len. rewrite <- Esid, El. lia. }
+    rewrite Hde.
+    destruct (Z.of_nat (length bs) <? 6) eqn:E1; [lia|].
+    rewrite Z.ltb_irrefl. cbn [Z.ltb Z.compare].
+    f_equal. f_equal.
+    + replace 6 with (Z.of_nat (length hb)) by (rewrite Hlh; reflexivity). apply slice_tail.
+    + f_equal. unfold observed_header. rewrite <- Esid, El. rewrite <- HL. reflexivity.
+Qed.
+
+(* the domain is inhabited by a header that uses every writable part *)
+Definition example_opt : PESOptionalHeader :=
+  {| PESOptionalHeader_AdditionalCopyInfo := 85;
+     PESOptionalHeader_CRC := 0;
+     PESOptionalHeader_DataAlignmentIndicator := true;
+     PESOptionalHeader_DSMTrickMode := Some {| DSMTrickMode_FieldID := 2; DSMTrickMode_FrequencyTruncation := 3;
+                                               DSMTrickMode_IntraSliceRefresh := 1; DSMTrickMode_RepeatControl := 0;
+                                               DSMTrickMode_TrickModeControl := 3 |};
+     PESOptionalHeader_DTS := Some (cr 8589934591 0);
+     PESOptionalHeader_ESCR := Some (cr 5726623061 341);
+     PESOptionalHeader_ESRate := 4194303;
+     PESOptionalHeader_Extension2Data := [1; 2; 255];
+     PESOptionalHeader_Extension2Length := 0;
+     PESOptionalHeader_HasAdditionalCopyInfo := true;
+     PESOptionalHeader_HasCRC := false;
+     PESOptionalHeader_HasDSMTrickMode := true;
+     PESOptionalHeader_HasESCR := true;
+     PESOptionalHeader_HasESRate := true;
+     PESOptionalHeader_HasExtension := true;
+     PESOptionalHeader_HasExtension2 := true;
+     PESOptionalHeader_HasOptionalFields := false;
+     PESOptionalHeader_HasPackHeaderField := false;
+     PESOptionalHeader_HasPrivateData := true;
+     PESOptionalHeader_HasProgramPacketSequenceCounter := true;
+     PESOptionalHeader_HasPSTDBuffer := true;
+     PESOptionalHeader_HeaderLength := 0;
+     PESOptionalHeader_IsCopyrighted := false;
+     PESOptionalHeader_IsOriginal := true;
+     PESOptionalHeader_MarkerBits := 0;
+     PESOptionalHeader_MPEG1OrMPEG2ID := 1;
+     PESOptionalHeader_OriginalStuffingLength := 63;
+     PESOptionalHeader_PacketSequenceCounter := 127;
+     PESOptionalHeader_PackField := 0;
+     PESOptionalHeader_Priority := true;
+     PESOptionalHeader_PrivateData := [0; 1; 2; 3; 4; 5; 6; 7; 8; 9; 10; 11; 12; 13; 14; 255];
+     PESOptionalHeader_PSTDBufferScale := 1;
+     PESOptionalHeader_PSTDBufferSize := 8191;
+     PESOptionalHeader_PTS := Some (cr 4294967296 0);
+     PESOptionalHeader_PTSDTSIndicator := 3;
+     PESOptionalHeader_ScramblingControl := 2 |}.
+Definition example_header : PESHeader :=
+  {| PESHeader_OptionalHeader := Some example_opt; PESHeader_PacketLength := 0; PESHeader_StreamID := 192 |}.
+
+Ltac bytes_ok_tac := unfold bytes_ok; repeat constructor; unfold byte_ok; lia.
+
+Example example_wf : wf_header example_header.
+Proof.
+  split; [cbn; lia|]. intros _. exists example_opt. split; [reflexivity|].
+  constructor; cbn -[Z.pow]; try lia; try tauto; try reflexivity.
+  - eexists. split; [|reflexivity]. change (2 ^ 33) with 8589934592. lia.
+  - eexists. split; [|reflexivity]. change (2 ^ 33) with 8589934592. lia.
+  - eexists _, _. split; [|split; [|reflexivity]]; [change (2 ^ 33) with 8589934592 | change (2 ^ 9) with 512]; lia.
+  - eexists. split; [reflexivity|]. unfold wf_dsm. cbn. lia.
+  - split; [reflexivity | bytes_ok_tac].
+  - split; [lia | bytes_ok_tac].
+Qed.
+Example example_roundtrip :
+  match enc_pes_header example_header 4 with
+  | Ok (its, n) => n = 55 /\ parse_pes_data_bytes (bytes_of_items its ++ [222; 173; 190; 239]) =
+                   Ok {| PESData_Data := [222; 173; 190; 239]; PESData_Header := Some (observed_header example_header 4) |}
+  | _ => False
+  end.
+Proof. vm_compute. split; reflexivity. Qed.
